@@ -11,7 +11,7 @@ from typing import Callable, Optional
 
 from .prog import FuncInfo, Program, call_name, short, stmt_head, unparse, walk_no_nested
 from .raises import bases_of, exc_class_of, handler_names, is_sigma_error
-from .util import assignments_to, atomic_guards, guards_at
+from .util import cfg_of, assignments_to, atomic_guards, guards_at
 
 
 @dataclass
@@ -33,12 +33,18 @@ CONVERTERS = {
     "UUID": ("ValueError", "AttributeError", "TypeError"), "uuid.UUID": ("ValueError", "AttributeError", "TypeError"),
     "int": ("ValueError", "TypeError", "OverflowError"), "float": ("ValueError", "TypeError", "OverflowError"),
     "date": ("ValueError", "TypeError"), "datetime.date": ("ValueError", "TypeError"), "date.fromisoformat": ("ValueError", "TypeError"),
-    "re.compile": ("re.error", "TypeError"), "ip_network": ("ValueError",), "ipaddress.ip_network": ("ValueError",),
+    "re.compile": ("re.error", "TypeError", "OverflowError", "RecursionError"),  # huge repetition count / very deep nesting
+    "ip_network": ("ValueError",), "ipaddress.ip_network": ("ValueError",),
     "len": ("TypeError",), "sorted": ("TypeError",), "set": ("TypeError",), "frozenset": ("TypeError",), "list": ("TypeError",), "tuple": ("TypeError",),
     "dict": ("TypeError", "ValueError"), "enumerate": (), "str": (), "repr": (), "bool": (), "isinstance": (), "type": (), "print": (), "id": (),
 }
 DICT_METHODS = {"get", "items", "keys", "values", "pop", "setdefault", "update", "copy"}
 STR_METHODS = {"split", "upper", "lower", "strip", "startswith", "endswith", "replace", "format", "join", "rstrip", "lstrip", "encode", "find", "isdigit", "count", "partition", "rpartition", "casefold"}
+
+
+def p_kind_exc(cfg, pred: int, succ: int) -> bool:
+    """Is pred→succ an exceptional edge (into an except handler or an exceptional finally copy) from a statement node?"""
+    return cfg.nodes[succ].kind == "except" and cfg.nodes[pred].kind in ("stmt", "test", "for", "with-enter")
 
 
 class EscapeAnalysis:
@@ -129,6 +135,53 @@ class EscapeAnalysis:
             # Any that stems from document data: root must be a tainted local; Any from third-party APIs is not document data
             root = self._root_name(e)
             return root in names if root else False
+        return False
+
+    def arg_tainted_at(self, fi: FuncInfo, e: ast.AST, at: ast.AST) -> bool:
+        """is_tainted refined by reaching definitions for a plain local name used at node ``at``: walking the CFG
+        backwards from the use, every path must meet either an assignment of a non-document value (x = Enum[...],
+        x = None, x = Class(...)) or a branch edge on which the name is known to be None; a path that reaches a
+        document-derived assignment (or the function entry) first keeps the name tainted."""
+        if not self.is_tainted(fi, e):
+            return False
+        if not isinstance(e, ast.Name) or e.id in fi.params():
+            return True
+        name = e.id
+        cfg = cfg_of(fi)
+        names = self.local_tainted_names(fi)
+        start = cfg.nodes_of(at) or cfg.nodes_of(self.prog.enclosing_stmt(at))
+        if not start:
+            return True
+        seen: set[tuple[int, bool]] = set()
+        stack = [(p, False) for s0 in start for p in cfg.nodes[s0].pred]
+        while stack:
+            nid, via_exc = stack.pop()
+            if (nid, via_exc) in seen:
+                continue
+            seen.add((nid, via_exc))
+            node = cfg.nodes[nid]
+            a = node.ast
+            if via_exc:
+                # reached through an exceptional edge: the statement raised before completing, its assignment did not happen
+                stack.extend((p, p_kind_exc(cfg, p, nid)) for p in node.pred)
+                continue
+            if node.kind == "entry":
+                return True
+            if node.kind == "branch" and a is not None:
+                t = unparse(a)
+                if (t == f"{name} is None" and node.polarity) or (t == f"{name} is not None" and node.polarity is False):
+                    continue  # on this edge the name holds None
+            if node.kind in ("stmt", "with-enter", "for") and a is not None:
+                kill = None
+                if isinstance(a, ast.Assign) and any(isinstance(t, ast.Name) and t.id == name for t in a.targets):
+                    kill = a.value
+                elif isinstance(a, ast.AnnAssign) and isinstance(a.target, ast.Name) and a.target.id == name and a.value is not None:
+                    kill = a.value
+                if kill is not None:
+                    if self._expr_tainted_by_names(kill, names - {name}) or (self._expr_tainted_by_names(kill, names) and not isinstance(kill, ast.Name)):
+                        return True  # a document-derived definition reaches the use
+                    continue
+            stack.extend((p, p_kind_exc(cfg, p, nid)) for p in node.pred)
         return False
 
     def _fresh_container(self, v: ast.AST) -> bool:
@@ -266,6 +319,14 @@ class EscapeAnalysis:
                 if self.is_tainted(fi, c) and self.narrowed(fi, c, n) is None:
                     self.n_ops += 1
                     out.append((n, ("TypeError",), self._root_name(c) or unparse(c), f"membership test in {short(c, 40)} of unchecked type"))
+                # hashing: `x in {…}` / `x in <set or dict>` with a document value of unchecked type (a list or map is unhashable)
+                left = n.left
+                if self.is_tainted(fi, left) and self.narrowed(fi, left, n) is None and not self._is_dict_key(fi, left):
+                    ts = self.ctx.types.type_str(fi.module, c) or ""
+                    hashed = isinstance(c, (ast.Set, ast.Dict, ast.SetComp, ast.DictComp)) or ts.split("[")[0].split(".")[-1].lower() in ("set", "frozenset", "dict", "defaultdict")
+                    if hashed:
+                        self.n_ops += 1
+                        out.append((n, ("TypeError",), self._root_name(left) or unparse(left), f"{short(left, 40)} is hashed by the membership test in {short(c, 40)}: a list or map from the document is unhashable"))
             elif isinstance(n, ast.Call):
                 d = call_name(n)
                 excs = CONVERTERS.get(d)
@@ -278,7 +339,7 @@ class EscapeAnalysis:
                             nt = self.narrowed(fi, a, n)
                             ex = excs
                             if nt is not None and "str" in nt:
-                                ex = tuple(x for x in excs if x in ("ValueError", "re.error"))
+                                ex = tuple(x for x in excs if x in ("ValueError", "re.error") or (d == "re.compile" and x in ("OverflowError", "RecursionError")))
                             if nt is not None and any(k in nt for k in ("iterable", "list", "dict", "str")) and d in ("len", "sorted", "set", "frozenset", "list", "tuple"):
                                 ex = ()
                             if d == "int" and isinstance(a, ast.Subscript) and isinstance(a.slice, ast.Slice):
@@ -295,6 +356,18 @@ class EscapeAnalysis:
                         self.n_ops += 1
                         out.append((n, ("KeyError",), unparse(n.slice), f"enum lookup {short(n, 50)} with a document value"))
         return out
+
+    def _is_dict_key(self, fi: FuncInfo, e: ast.AST) -> bool:
+        """e is a name bound to the keys of a mapping (for k, v in d.items() / for k in d.keys()): hashable by construction."""
+        if not isinstance(e, ast.Name):
+            return False
+        for n in ast.walk(fi.node):
+            if isinstance(n, (ast.For, ast.comprehension)) and isinstance(n.iter, ast.Call) and isinstance(n.iter.func, ast.Attribute):
+                if n.iter.func.attr == "items" and isinstance(n.target, ast.Tuple) and n.target.elts and isinstance(n.target.elts[0], ast.Name) and n.target.elts[0].id == e.id:
+                    return True
+                if n.iter.func.attr == "keys" and isinstance(n.target, ast.Name) and n.target.id == e.id:
+                    return True
+        return False
 
     def _caught(self, fi: FuncInfo, node: ast.AST, exc: str) -> bool:
         names = bases_of(self.prog, exc) if exc in self.prog.classes or "." not in exc else [exc.rsplit(".", 1)[-1], exc, "Exception", "BaseException"]
@@ -347,10 +420,10 @@ class EscapeAnalysis:
                             # tainted constructor args become tainted self.<field>: modelled as tainted pseudo-param "self.<field>"
                             newt = set()
                             for i, a in enumerate(c.args):
-                                if i < len(flds) and self.is_tainted(fi, a):
+                                if i < len(flds) and self.arg_tainted_at(fi, a, c):
                                     newt.add("self." + flds[i])
                             for kw in c.keywords:
-                                if kw.arg and self.is_tainted(fi, kw.value):
+                                if kw.arg and self.arg_tainted_at(fi, kw.value, c):
                                     newt.add("self." + kw.arg)
                             if newt - self.taint.get(callee, set()):
                                 self.taint.setdefault(callee, set()).update(newt)
